@@ -468,7 +468,20 @@ func (r Rule) splitPos(path string) int {
 		// ignores letter case so that script.PHP is never handed to the
 		// static file server; the split has to find it as well.
 	}
-	return strings.Index(strings.ToLower(path), strings.ToLower(r.SplitPath))
+	return strings.Index(lowerASCII(path), lowerASCII(r.SplitPath))
+}
+
+// lowerASCII lower-cases the ASCII letters of s and leaves every other byte
+// alone, so that an index into the result is an index into s. (strings.ToLower
+// changes the byte length of some runes, e.g. U+212A or U+023A.)
+func lowerASCII(s string) string {
+	b := []byte(s)
+	for i, c := range b {
+		if 'A' <= c && c <= 'Z' {
+			b[i] = c + 'a' - 'A'
+		}
+	}
+	return string(b)
 }
 
 // AllowedPath checks if requestPath is not an ignored path.
